@@ -153,6 +153,14 @@ func (c *CaveatSet) DecodeMsgpack(dec *msgpack.Decoder) error {
 			return err
 		}
 
+		// msgpack's nil handling bypasses UnmarshalMsgpack and zeroes the whole
+		// struct when the body is nil: restore the type and the raw body so the
+		// caveat passes through unchanged
+		if uc, ok := cav.(*UnregisteredCaveat); ok && len(uc.RawMsgpack) == 0 {
+			uc.Type = CaveatType(t)
+			uc.RawMsgpack = []byte{0xc0}
+		}
+
 		c.Caveats = append(c.Caveats, cav)
 	}
 
